@@ -37,6 +37,7 @@ type boxStats struct {
 	FlagStates     map[string]int `json:"states_first_reached_with"`
 	EventCounts    map[string]int `json:"transitions_by_event"`
 	Sim            simStats       `json:"library_executions"`
+	MaxBacklog     int            `json:"max_apply_backlog_committed_minus_applied"`
 	WallS          float64        `json:"wall_s"`
 	Stopped        string         `json:"stopped,omitempty"`
 }
@@ -225,6 +226,9 @@ func (co *coord) runBox(bi int, deadline time.Time) *boxStats {
 		for i := range recs {
 			rc := &recs[i]
 			st.EventCounts[evNames[rc.ev.K]]++
+			if int(rc.backlog) > st.MaxBacklog {
+				st.MaxBacklog = int(rc.backlog)
+			}
 			for b := 0; b < fFlags; b++ {
 				if rc.flags&(1<<b) != 0 {
 					st.FlagTrans[flagNames[b]]++
